@@ -335,6 +335,11 @@ func extractOption(nodes map[string]*chanCall, opts ...Option) (map[string][]any
 			}
 			curNodeKey := path.path[0]
 
+			if curNode.action.isPassthrough && (len(path.path) > 1 || len(opt.options) > 0) {
+				// a passthrough node has no option type but is not a sub graph: it takes no options and has no sub path
+				return nil, fmt.Errorf("cannot designate options or a sub path to a passthrough node, path:%s", path)
+			}
+
 			if len(path.path) == 1 {
 				if len(opt.options) == 0 {
 					// sub graph common callbacks has been added to ctx in initNodeCallback and won't be passed to subgraph only pass options
